@@ -48,7 +48,9 @@ WIDTH = {"q": "nq", "u": "nu", "u_dot": "nu", "q_dot": "nq", "la_g": "nla_g", "P
 def _case(draw):
     solver = draw(st.sampled_from(SOLVERS))
     if solver == "Newton":
-        return {"solver": solver, "system": "statics", "n_load_steps": draw(st.integers(1, 12)), "k": draw(gen.f(1, 50))}
+        # a point mass (nq = nu) or a quaternion-parametrised rigid body (nq = 7, nu = 6) held by springs
+        return {"solver": solver, "system": draw(st.sampled_from(["statics", "statics_rigid"])), "n_load_steps": draw(st.integers(1, 12)),
+                "k": draw(gen.f(1, 50))}
     system = draw(st.sampled_from(["spring_mass", "pendulum"] + (["bounce", "bounce"] if solver in dynbuild.NONSMOOTH_SOLVERS else [])
                                   # a force that blows up inside the horizon: scipy's step-size control gives up and the run ends early
                                   + (["blow_up"] if solver == "ScipyIVP" else [])))
@@ -84,8 +86,11 @@ def build_system(spec):
     from cardillo.contacts import Sphere2Plane
 
     t0 = spec.get("t0", 0.0)
-    system = sysbuild.new_system(t0)
     kind = spec["system"]
+    if kind == "statics_rigid":
+        from checks import c23
+        return c23.build_springs({"k": [spec.get("k", 20.0) + 5.0, 15.0, 25.0], "F": [0.5, 1.0, -2.0], "preload": 0.0})
+    system = sysbuild.new_system(t0)
     if kind in ("spring_mass", "statics"):
         pm = PointMass(1.5, q0=np.array([1.0, 0.2, -0.1]), u0=np.zeros(3) if kind == "statics" else np.array([0.3, -0.2, 0.1]), name="pm")
         system.add(pm)
